@@ -31,7 +31,7 @@ THRESHOLDS = [0, 1, 2, 15, 16, 17, 31, 32, 127, 128, 129, 255, 256, 257, 2303, 2
 class Ob:
     """One proof obligation: body(ctx) runs the real code on a shape and returns truth (or (truth, info))."""
 
-    def __init__(self, oid, body, timeout=40.0, tags=None, text=None, r4=True, hard_factor=3.0):
+    def __init__(self, oid, body, timeout=40.0, tags=None, text=None, r4=True, hard_factor=1.5):
         self.oid, self.body, self.timeout, self.tags, self.text, self.r4 = oid, body, timeout, tags or {}, text, r4
         self.hard_factor = hard_factor
 
